@@ -342,8 +342,16 @@ def check(P, rep):
                       'expiration stays possible)', site(g, gd.ctx, gd.bb))
         # refused exactly then: the refusing edge leads to no success exit
         oks = set(g.ok_exit_sids())
+        nonpos = guard_sel(g, lambda c_: c_[0] == 'cmp' and c_[1] == 'le' and core(c_[2]) == amount and const_int(core(c_[3])) == 0)
+        no_nonpos = g.reach(None, (), edges(nonpos))
         for gd in refuse:
-            after = g.states_after_edges([gd.edge])
+            # runs that take an `expiration < sequence` edge and never an `amount <= 0` edge (before or after it) cannot succeed; a second
+            # test of the same comparison that only decides the TTL extension for amount <= 0 is not a refusal site
+            starts = []
+            for sid in g.node_states.get((gd.ctx.id, gd.bb), []):
+                if sid in no_nonpos:
+                    starts.extend(d for d, lab in g.succ[sid] if lab == gd.label)
+            after = g.reach(starts, (), edges(nonpos)) if starts else set()
             rep.check(not (after & oks), 'C12.R5', 'approve:expired-refused', 'amount > 0 with expiration < sequence cannot succeed', site(g, gd.ctx, gd.bb))
     # allowance(): result flows
     if 'allowance' in c.entries:
